@@ -15,7 +15,7 @@ from ..observe import T_AF, T_AW, T_STATE
 PID = "C20"
 LEVEL = "exploration"
 RULE = (
-    "Hypothesis generates (1) a small sub-project (profile W) simulated with a generated absence list (incl. steps "
+    "Hypothesis generates (1) a small sub-project (profile W) simulated (one in four: backward-simulated, logs mirrored) with a generated absence list (incl. steps "
     "beyond its end) and a unit time from {1,2,3,5,10,15,30,60 min, 1 day}, optionally edited by an insert_absence_time_list whose list overlaps the steps already present, written with write_simple_json; also "
     "never-simulated and FINISHED_FAILURE variants; (2) a parent model (profile W, other unit time, parent absence "
     "list, both auto-task flags) in which one task at a generated position (0-2 FS/SS predecessors, any successors) "
@@ -54,6 +54,8 @@ def _case(draw):
         t["fixw"] = None
     sub["opts"]["abs"] = draw(st.lists(st.integers(0, 30), unique=True, max_size=5))
     stage = draw(st.sampled_from(["ok", "ok", "ok", "ok", "never", "failure"]))
+    # the result may come from a backward simulation (logs and absence steps mirrored into forward time before saving)
+    backward = stage == "ok" and draw(st.integers(0, 3)) == 0
     parent = draw(gen.model_spec(CFG_PARENT))
     k = draw(st.integers(0, len(parent["tasks"]) - 1))
     if k > 0 and draw(st.integers(0, 2)) > 0:
@@ -74,6 +76,7 @@ def _case(draw):
         "u_sub": u_sub,
         "u_par": u_par,
         "rm_abs": draw(st.booleans()),
+        "backward": backward,
         # the saved result may have been edited first: insert_absence_time_list(B), B overlapping the steps already present
         "insert": insert,
     }
@@ -104,7 +107,11 @@ def check(case):
     hs = S.build(sub)
     ps = hs.project
     ps.unit_timedelta = datetime.timedelta(minutes=case["u_sub"])
-    if stage == "ok":
+    if stage == "ok" and case.get("backward"):
+        S.backward_simulate(ps, dict(sub["opts"], max_time=200))
+        res.cls("sub_result_from_backward_run")
+        case["insert"] = None
+    elif stage == "ok":
         S.simulate(ps, dict(sub["opts"], max_time=200))
     elif stage == "failure":
         S.simulate(ps, dict(sub["opts"], max_time=1))
